@@ -20,7 +20,7 @@ def cmd_check(a) -> int:
     if tier not in ("quick", "thorough"):
         tier = "quick"
     return driver.check(a.prop, tier, a.seed, a.repo, workers=a.workers, runs_override=a.runs,
-                        wall_override=a.wall)
+                        wall_override=a.wall, evidence=not a.no_evidence)
 
 
 def cmd_digests(a) -> int:
@@ -153,6 +153,8 @@ def main(argv=None) -> int:
     p.add_argument("--workers", type=int, default=_env_int("VERIF_WORKERS", 16))
     p.add_argument("--runs", type=int, default=None)
     p.add_argument("--wall", type=float, default=None)
+    p.add_argument("--no-evidence", action="store_true",
+                   help="do not rewrite evidence/<id>.json (used when the check is pointed at a scratch tree)")
     p.set_defaults(fn=cmd_check)
 
     p = sub.add_parser("digests")
